@@ -16,7 +16,14 @@ RULE = ("exhaustive product 12 months x {int, zero-padded decimal strings, case 
         "fullwidth / mathematical / circled letters, 0..13 in every other decimal digit system, as superscripts / circled / "
         "Roman / CJK numerals and with what int() tolerates - months exactly when lower() / isdecimal()+int() of the running "
         "interpreter say so (computed by the oracle), x 3 middlewares, 9 ordered pairs on a sample, chains, next to the real "
-        "spelling in one library, set by the caller between two runs. "
+        "spelling in one library, set by the caller between two runs; INTERPRETER SETTINGS changed after the library was imported, "
+        "around each call and restored after it (c15_interp.py): sys.set_int_max_str_digits lowered (640, 1000), raised (10000), "
+        "switched off (0) x digit strings / ints / zero-padded months whose number of significant digits lies below / at / above "
+        "the import-time limit and the current one, with few / hundreds / thousands of leading zeros, other digit systems, "
+        "subclasses, and every ordinary spelling and near miss under every setting; sys.setrecursionlimit lowered to frames in "
+        "use + 40 / 64 / 100 / 200 x long zero pads, digit strings, words, ints and the ordinary values; x 3 middlewares, pairs, "
+        "chains, several entries, transform / transform_block / parse_string, objects built before or after the change or "
+        "already used, settings around every call or only some - months decided by int() under the setting of the call. "
         "distinct = distinct (value, middleware sequence); non-trivial = the value is a month spelling or a near miss "
         "(out-of-range number, enclosed or padded month, other type)")
 TRUSTED = ["oracle instances: str.lower restricted to ASCII, int() restricted to ASCII decimals (inputs outside are "
@@ -128,7 +135,9 @@ def unjv(v):
         if "isub" in v:
             return mk_isub(v["isub"][0], unjv(v["isub"][1]))
         if "ssub" in v:
-            return mk_ssub(v["ssub"][0], v["ssub"][1])
+            return mk_ssub(v["ssub"][0], unjv(v["ssub"][1]))
+        if "rep" in v:                        # long texts, shipped as [[piece, count], ...]
+            return "".join(piece * count for piece, count in v["rep"])
         if "int" in v:
             return v["int"]
         if "bool" in v:
@@ -223,6 +232,8 @@ def generate(rng, tier):
     cases += gen_libs(rng, tier)
     cases += gen_subclass(rng, tier)          # appended: the streams above are the same as before for a given seed
     cases += gen_lookalikes(rng, tier)        # appended after gen_subclass for the same reason
+    from . import c15_interp
+    cases += c15_interp.gen(rng, tier)        # appended last: interpreter settings changed around the calls
     return cases
 
 
@@ -709,6 +720,9 @@ def impl(case):
     from bibtexparser.middlewares import MonthIntMiddleware, MonthAbbreviationMiddleware, MonthLongStringMiddleware
     MW = [MonthIntMiddleware, MonthAbbreviationMiddleware, MonthLongStringMiddleware]
     inp = case["input"]
+    if "interp" in inp:
+        from . import c15_interp
+        return c15_interp.impl(case, MW)
     if "values" in inp:
         return impl_multi(case, MW)
     if "steps" in inp:
